@@ -45,3 +45,13 @@ VARIANTS += [
       rule='C06-VERNAME', key='kind=min'),
     M('C06', 'refactor-is_ver_field-suffix-set', E(PC, "    v = v[:-3]\n    return v in STANDARD_CONSTRAINT_SUFFIXES", "    stem = v[:-len('_ok')]\n    return stem in set(STANDARD_CONSTRAINT_SUFFIXES)"), kind='refactor'),
 ]
+
+VARIANTS += [
+    M('C06', 'detection-verifier-built-without-type_checking', E(PC, "    pdv = PandasConstraintVerifier(df, epsilon=epsilon,\n                                   type_checking=type_checking)\n    if isinstance(constraints_path, dict):\n        constraints = DatasetConstraints()\n        constraints.initialize_from_dict(native_definite(constraints_path))\n    else:\n        constraints = DatasetConstraints(loadpath=constraints_path)\n    if repair:\n        pdv.repair_field_types(constraints)\n    return pdv.detect(",
+                                                                 "    pdv = PandasConstraintVerifier(df, epsilon=epsilon)\n    if isinstance(constraints_path, dict):\n        constraints = DatasetConstraints()\n        constraints.initialize_from_dict(native_definite(constraints_path))\n    else:\n        constraints = DatasetConstraints(loadpath=constraints_path)\n    if repair:\n        pdv.repair_field_types(constraints)\n    return pdv.detect("),
+      rule='C06-SAMESETUP', key='verifier-keywords'),
+    M('C06', 'refactor-shared-constraints-loader', [E(PC, "    pdv = PandasConstraintVerifier(df, epsilon=epsilon,\n                                   type_checking=type_checking)\n    if isinstance(constraints_path, dict):\n        constraints = DatasetConstraints()\n        constraints.initialize_from_dict(native_definite(constraints_path))\n    else:\n        constraints = DatasetConstraints(loadpath=constraints_path)\n    if repair:\n        pdv.repair_field_types(constraints)\n    return pdv.detect(",
+                                                      "    pdv = PandasConstraintVerifier(df, epsilon=epsilon,\n                                   type_checking=type_checking)\n    constraints = load_constraints_for_df(constraints_path)\n    if repair:\n        pdv.repair_field_types(constraints)\n    return pdv.detect("),
+                                                    E(PC, "def discover_df(df, inc_rex=False, df_path=None):", "def load_constraints_for_df(constraints_path):\n    if isinstance(constraints_path, dict):\n        constraints = DatasetConstraints()\n        constraints.initialize_from_dict(native_definite(constraints_path))\n    else:\n        constraints = DatasetConstraints(loadpath=constraints_path)\n    return constraints\n\n\ndef discover_df(df, inc_rex=False, df_path=None):")],
+      kind='refactor'),
+]
